@@ -9,6 +9,7 @@ pub mod c18;
 pub mod c20;
 pub mod mb;
 pub mod mbchecks;
+pub mod wire13;
 
 use crate::runner::{PartOutcome, RunCtx, Viol};
 use serde_json::Value;
@@ -97,6 +98,23 @@ fn run_c02(ctx: &RunCtx) -> Vec<PartOutcome> {
 }
 fn replay_c02(part: &str, input: &Value) -> Option<Result<Result<(), Viol>, String>> {
     mbchecks::replay_spec(&mbchecks::C02, part, input)
+}
+
+fn run_c13(ctx: &RunCtx) -> Vec<PartOutcome> {
+    let mut p = c13::run_pure(ctx);
+    p.extend(wire13::run_c13_sim(ctx));
+    p
+}
+fn replay_c13(part: &str, input: &Value) -> Option<Result<Result<(), Viol>, String>> {
+    c13::replay(part, input).or_else(|| wire13::replay_c13_sim(part, input))
+}
+fn run_c14(ctx: &RunCtx) -> Vec<PartOutcome> {
+    let mut p = c14::run(ctx);
+    p.extend(wire13::run_c14_wire(ctx));
+    p
+}
+fn replay_c14(part: &str, input: &Value) -> Option<Result<Result<(), Viol>, String>> {
+    c14::replay(part, input).or_else(|| wire13::replay_c14_wire(part, input))
 }
 
 pub fn all() -> Vec<CheckDef> {
@@ -239,19 +257,19 @@ pub fn all() -> Vec<CheckDef> {
         },
         CheckDef {
             id: "C13",
-            run: c13::run_pure,
-            replay: c13::replay,
-            rule: "lines from a grammar generator (verb in random case, middles that may contain ':', optional trailing incl. empty, blank runs), a byte-level generator and all strings of length <= 8/10 over {SP ':' 'a' ',' '#'}; non-trivial = reference parse has >= 2 parameters and one of: ':' inside a middle, blank runs, empty trailing, mixed-case verb; distinct by (verb, #params, those four flags)",
+            run: run_c13,
+            replay: replay_c13,
+            rule: "lines from a grammar generator (verb in random case, middles that may contain ':', optional trailing incl. empty, blank runs), a byte-level generator and all strings of length <= 8/10 over {SP ':' 'a' ',' '#'}; non-trivial = reference parse has >= 2 parameters and one of: ':' inside a middle, blank runs, empty trailing, mixed-case verb; distinct by (verb, #params, those four flags); SIM parts: verb_table = EVERY verb x arity 0..max+2 x {plain, mixed case, extra blanks} must be answered 421 (unknown) / 461 naming the verb (too few parameters) / neither; framing = lines of 1..4200 bytes (dense around the 2000 limit) LF/CRLF: processed once and uncut, or exactly one 417 and nothing executed; chunking = the same script line-at-a-time vs arbitrary chunking gives equal transcripts; relay = model-based histories with adversarial texts: every relayed PRIVMSG/NOTICE/TOPIC/PART/KICK/NICK/INVITE/WALLOPS and 301/332, re-parsed by the reference tokenizer, carries exactly the originator's target and text, every emitted line is one CRLF-terminated parsable message",
             level: "exploration",
-            assumptions: &["reference tokenizer (refparse.rs, self-tested) is the IRC grammar of the statement", "TAB/VT/FF/CR/LF inside a line and leading non-ASCII blanks are not judged"],
+            assumptions: &["reference tokenizer (refparse.rs, self-tested) is the IRC grammar of the statement", "TAB/VT/FF/CR/LF inside a line and leading non-ASCII blanks are not judged", "line lengths 1991..2009 may be handled either way (processed whole or rejected whole)", "SIM engine for the wire parts"],
         },
         CheckDef {
             id: "C14",
-            run: c14::run,
-            replay: c14::replay,
-            rule: "mask/text pairs: masks derived from the text by wildcarding/lengthening edits, independent random pairs, and all pairs of strings of length <= 4/5 over {a b * ? e-acute}; non-trivial = mask has a wildcard and a literal and a one-edit neighbour of the text answers differently, or a multi-byte pair with a wildcard; distinct by (wildcard skeleton, text length bucket, answer, ascii/multibyte)",
+            run: run_c14,
+            replay: replay_c14,
+            rule: "mask/text pairs: masks derived from the text by wildcarding/lengthening edits, independent random pairs, and all pairs of strings of length <= 4/5 over {a b * ? e-acute}; non-trivial = mask has a wildcard and a literal and a one-edit neighbour of the text answers differently, or a multi-byte pair with a wildcard; distinct by (wildcard skeleton, text length bucket, answer, ascii/multibyte); wire_agreement (SIM, model-based): ban/except/invite-exception masks, operator mask and configured-user mask derived from real sources (16 mask shapes incl. partial forms) decide JOIN 474/473, OPER 491/381, registration ERROR/001, WHO/WHOIS mask result sets exactly as the reference glob says, and list masks are announced/listed in normalised form",
             level: "exploration",
-            assumptions: &["reference glob (refglob.rs, textbook DP over Unicode scalar values, self-tested)"],
+            assumptions: &["reference glob (refglob.rs, textbook DP over Unicode scalar values, self-tested)", "SIM engine + reference model for the wire part"],
         },
         CheckDef {
             id: "C20",
